@@ -16,13 +16,13 @@ theorem skipWs_newline (r : List Char) : skipWs ('\n' :: r) = skipWs r := by
   simp [skipWs, List.dropWhile, isWs]
 
 /-- continuation after a value: `,` `)` or `]` -/
-def Delim (rest : List Char) : Prop := ∃ c r, rest = c :: r ∧ (c = ',' ∨ c = ')' ∨ c = ']')
+def Delim (rest : List Char) : Prop := ∃ c r, rest = c :: r ∧ (c = ',' ∨ c = ')' ∨ c = ']' ∨ c = ';')
 
 theorem Delim.not_digit {rest : List Char} (h : Delim rest) :
     ∃ c r, rest = c :: r ∧ isDigit c = false ∧ c ≠ '.' ∧ isIdChar c = false ∧ isWs c = false := by
   obtain ⟨c, r, rfl, hc⟩ := h
   refine ⟨c, r, rfl, ?_⟩
-  rcases hc with rfl | rfl | rfl <;> decide
+  rcases hc with rfl | rfl | rfl | rfl <;> decide
 
 /-! ### takeWhile / dropWhile over an append -/
 theorem takeWhile_append_stop {p : Char → Bool} (a : List Char) (c : Char) (r : List Char)
@@ -465,7 +465,7 @@ theorem pItems_pieces : (sp : Bool) → (v : Value) → (vs : List Value) → (r
     cases fuel with
     | zero => simp [vsizes] at hf
     | succ f =>
-      have hv := pValue_pieces v (']' :: rest) f hok.1 ⟨']', rest, rfl, Or.inr (Or.inr rfl)⟩
+      have hv := pValue_pieces v (']' :: rest) f hok.1 ⟨']', rest, rfl, Or.inr (Or.inr (Or.inl rfl))⟩
         (by simp only [vsizes] at hf; omega)
       simp only [Value.piecesList, pItems, hv]
       rw [skipWs_cons_of_not_ws _ _ (by decide)]
@@ -574,7 +574,7 @@ theorem pArg_pos (v : Value) (rest : List Char) (fuel : Nat) (hok : ValueOK v) (
     obtain ⟨c', r', he, hc'⟩ := hr
     injection he with h1 _
     subst h1
-    rcases hc' with rfl | rfl | rfl <;> decide
+    rcases hc' with rfl | rfl | rfl | rfl <;> decide
   have key : pArg fuel (flatten v.pieces ++ d :: r) =
       (pValue fuel (flatten v.pieces ++ d :: r)).map fun (v, r) => (⟨none, v⟩, r) := by
     cases v with
@@ -1178,6 +1178,100 @@ theorem header_ok (op : ScadOp ν) (hs : ∀ s ∈ op.strings, NoNul s) (h : Hea
     hdr_args
 
 end HeaderOK
+/-! ### files: global settings, then the trees -/
+theorem pIdent_ws_prefix (w cs : List Char) (hw : w.all isWs = true) : pIdent (w ++ cs) = pIdent cs := by
+  rw [← pIdent_skipWs, skipWs_all_ws w hw, pIdent_skipWs]
+
+theorem pTop_assign (w name t rest : List Char) (hw : w.all isWs = true) (hn : IsIdent name = true)
+    (ht : IsNumeral t = true) :
+    pTop (w ++ (name ++ '=' :: (t ++ ';' :: rest))) = some (.assign name (.num t), rest) := by
+  have hid := pIdent_ident name '=' (t ++ ';' :: rest) hn (by decide)
+  have hv := pValue_pieces (.num t) (';' :: rest) ((t ++ ';' :: rest).length + 1) ht
+    ⟨';', rest, rfl, Or.inr (Or.inr (Or.inr rfl))⟩ (by simp [vsize])
+  simp only [Value.pieces, flatten_cons, flatten_nil, Piece.chars, Tok.chars, List.append_nil] at hv
+  simp only [pTop, pIdent_ws_prefix w _ hw, hid, skipWs_cons_of_not_ws '=' _ (by decide), hv,
+    skipWs_cons_of_not_ws ';' _ (by decide)]
+  rfl
+
+theorem pTop_stmt (w : List Char) (hw : w.all isWs = true) (t : Scad ν) (hok : TreeOK showNum t)
+    (rest : List Char) :
+    pTop (w ++ (flatten (t.pieces showNum) ++ rest)) = some (.stmt (toStmt showNum t), '\n' :: rest) := by
+  cases t with
+  | mk op cs =>
+    obtain ⟨⟨h, hh, hname, hargs⟩, hprim, hcs⟩ := hok
+    have hok' : TreeOK showNum (.mk op cs) := ⟨⟨h, hh, hname, hargs⟩, hprim, hcs⟩
+    have hsz := tsize_le showNum _ hok'
+    obtain ⟨c, r0, he, hc⟩ := tree_head showNum _ hok'
+    have hsk : skipWs (w ++ (flatten (Scad.pieces showNum (.mk op cs)) ++ rest)) =
+        flatten (Scad.pieces showNum (.mk op cs)) ++ rest := by
+      rw [skipWs_all_ws w hw, he, List.cons_append, skipWs_cons_of_not_ws _ _ (not_ws_of_idStart c hc)]
+    have hstmt : pStmt ((w ++ (flatten (Scad.pieces showNum (.mk op cs)) ++ rest)).length + 1)
+        (w ++ (flatten (Scad.pieces showNum (.mk op cs)) ++ rest)) =
+        some (toStmt showNum (.mk op cs), '\n' :: rest) := by
+      rw [← pStmt_skipWs, hsk]
+      apply pStmt_pieces showNum (.mk op cs) rest _ hok'
+      simp only [List.length_append]; omega
+    have hid : ∃ r, pIdent (flatten (Scad.pieces showNum (.mk op cs)) ++ rest) = some (h.name, '(' :: r) := by
+      cases hp : op.isPrimitive with
+      | true =>
+        have := hprim hp; subst this
+        rw [prim_text showNum op h hh hp rest]
+        exact ⟨_, pIdent_ident h.name '(' _ hname (by decide)⟩
+      | false =>
+        rw [block_text showNum op cs h hh hp rest]
+        exact ⟨_, pIdent_ident h.name '(' _ hname (by decide)⟩
+    obtain ⟨r, hid⟩ := hid
+    simp only [pTop, pIdent_ws_prefix w _ hw, hid, skipWs_cons_of_not_ws '(' _ (by decide), hstmt]
+    rfl
+
+/-- the statements part of a file -/
+theorem pFileAux_emitAll : (ts : List (Scad ν)) → (k : Nat) → (∀ t ∈ ts, TreeOK showNum t) → ts.length < k →
+    (w : List Char) → w.all isWs = true →
+    pFileAux k (w ++ emitAll showNum ts) = some (ts.map fun t => Top.stmt (toStmt showNum t))
+  | [], k, _, hk, w, hw => by
+    cases k with
+    | zero => omega
+    | succ k' =>
+      have : skipWs (w ++ emitAll showNum ([] : List (Scad ν))) = [] := by
+        rw [skipWs_all_ws w hw]; rfl
+      simp [pFileAux, this]
+  | t :: ts, k, hok, hk, w, hw => by
+    cases k with
+    | zero => omega
+    | succ k' =>
+      obtain ⟨c, r, he, hc⟩ := tree_head showNum t (hok t (by simp))
+      have hne : ∃ c' r', skipWs (w ++ emitAll showNum (t :: ts)) = c' :: r' := by
+        rw [skipWs_all_ws w hw, emitAll_cons, he, List.cons_append,
+          skipWs_cons_of_not_ws _ _ (not_ws_of_idStart c hc)]
+        exact ⟨c, _, rfl⟩
+      obtain ⟨c', r', hcr⟩ := hne
+      have htop := pTop_stmt showNum w hw t (hok t (by simp)) (emitAll showNum ts)
+      rw [← emitAll_cons] at htop
+      have hrec := pFileAux_emitAll ts k' (fun x hx => hok x (by simp [hx]))
+        (by simp only [List.length_cons] at hk; omega) ['\n'] (by decide)
+      simp only [pFileAux, hcr, htop]
+      simp only [List.singleton_append] at hrec
+      rw [hrec]; simp
+
+theorem length_le_emitAll (ts : List (Scad ν)) (hok : ∀ t ∈ ts, TreeOK showNum t) :
+    2 * ts.length ≤ (emitAll showNum ts).length := by
+  induction ts with
+  | nil => simp
+  | cons t ts ih =>
+    have h1 := tsize_le showNum t (hok t (by simp))
+    have h2 : 2 ≤ tsize t := by cases t; simp [tsize]
+    have := ih (fun x hx => hok x (by simp [hx]))
+    rw [emitAll_cons, List.length_append, List.length_cons]; omega
+
+theorem pFileAux_assign_step (k : Nat) (w name t rest : List Char) (hw : w.all isWs = true)
+    (hn : IsIdent name = true) (ht : IsNumeral t = true) :
+    pFileAux (k + 1) (w ++ (name ++ '=' :: (t ++ ';' :: rest))) =
+      (pFileAux k rest).map (Top.assign name (.num t) :: ·) := by
+  obtain ⟨c, r, rfl, hc⟩ := ident_head name hn
+  have htop := pTop_assign w (c :: r) t rest hw hn ht
+  simp only [pFileAux, htop]
+  simp only [skipWs_all_ws w hw, List.cons_append, skipWs_cons_of_not_ws _ _ (not_ws_of_idStart c hc)]
+
 end Stmts
 
 end ScadVerif.ParserLemmas
